@@ -89,8 +89,8 @@ PROPS["C20"] = dict(jobs=lambda j: j.startswith("timebuilder:"), obl=ALL_OBL, bo
 PROPS["C13"] = dict(jobs=None, obl=None, bounded="c13", level="other", design="4 C13",
                     technique="bounded stand-in: whole-system JSON round trips (through text) of core topologies, edit histories and a system with every builder class: ids, classes, links, labels, sources, inputs, recomputed results, re-export equality, liveness, previous-major-version file")
 
-PROPS["C17"] = dict(jobs=upd("VideoStreamingJob", "GPUServer", "GenAI", "update_occupied_"), obl=ALL_OBL, bounded="c17", level="other", design="4 C17",
-                    technique="P: contracts on the derived-parameter rules of VideoStreamingJob (all 7 resolutions), GenAIJob, GenAIModel, GPUServer and on the server's occupied resources (service base consumption added), incl. completeness of recorded ancestors (refresh); B: builder systems over every resolution / technology / model-parameter kind / sampled instance types: derived parameters vs the stated rules recomputed independently, footprints vs the plain twin model, refresh after every builder-input change vs a fresh build")
+PROPS["C17"] = dict(jobs=upd("VideoStreamingJob", "GPUServer", "GenAI", "update_occupied_", "update:BoaviztaCloudServer|"), obl=ALL_OBL, bounded="c17", level="other", design="4 C17",
+                    technique="P: contracts on the derived-parameter rules of VideoStreamingJob (all 7 resolutions), GenAIJob, GenAIModel, GPUServer, BoaviztaCloudServer (value-for-value extraction from a symbolic API response) and on the server's occupied resources (service base consumption added), incl. completeness of recorded ancestors (refresh); B: builder systems over every resolution / technology / model-parameter kind / sampled instance types: derived parameters vs the stated rules recomputed independently, footprints vs the plain twin model, refresh after every builder-input change vs a fresh build")
 
 PROPS["C02"]["assumptions"] = [
     "A-INDEX: modeling_obj_containers (the reverse index kept by the link layer) lists exactly the objects that reference an object, each once; its maintenance is property C16 (bounded tier)",
